@@ -546,6 +546,59 @@ func BV2Int(t *T) *T {
 }
 
 // ---------- Int arithmetic ----------
+// linForm decomposes an Int term built from +, - and constants into constant + sum of coefficient*atom.
+type linForm struct {
+	c    int64
+	coef map[*T]int64
+}
+
+func lin(t *T) (linForm, bool) {
+	f := linForm{coef: map[*T]int64{}}
+	var walk func(t *T, sign int64) bool
+	walk = func(t *T, sign int64) bool {
+		switch {
+		case t.IsConst():
+			if !t.Int.IsInt64() {
+				return false
+			}
+			f.c += sign * t.Int.Int64()
+		case t.Op == "+":
+			for _, a := range t.Args {
+				if !walk(a, sign) {
+					return false
+				}
+			}
+		case t.Op == "-" && len(t.Args) == 2:
+			return walk(t.Args[0], sign) && walk(t.Args[1], -sign)
+		default:
+			f.coef[t] += sign
+		}
+		return true
+	}
+	if t.Sort.K != SInt || !walk(t, 1) {
+		return f, false
+	}
+	return f, true
+}
+
+// linDiff returns a-b when it is a constant.
+func linDiff(a, b *T) (int64, bool) {
+	fa, ok1 := lin(a)
+	fb, ok2 := lin(b)
+	if !ok1 || !ok2 {
+		return 0, false
+	}
+	for k, v := range fb.coef {
+		fa.coef[k] -= v
+	}
+	for _, v := range fa.coef {
+		if v != 0 {
+			return 0, false
+		}
+	}
+	return fa.c - fb.c, true
+}
+
 func IntAdd(a, b *T) *T {
 	if a.IsConst() && b.IsConst() {
 		return IntConstBig(new(big.Int).Add(a.Int, b.Int))
@@ -710,7 +763,54 @@ func StrPrefixOf(pre, s *T) *T {
 			return tFalse
 		}
 	}
+	if r, ok := prefixPieces(pre, s); ok {
+		return r
+	}
 	return mk("str.prefixof", BoolS, pre, s)
+}
+
+// prefixPieces decides prefixof piece by piece for concatenations of constants and decimal numerals: identical pieces
+// are skipped, constants are compared bytewise, and two numerals that are each followed by a non-digit are equal or not.
+func prefixPieces(pre, s *T) (*T, bool) {
+	pp := func(t *T) []*T {
+		if t.Op == "str.++" {
+			return t.Args
+		}
+		return []*T{t}
+	}
+	a, b := pp(pre), pp(s)
+	cond := tTrue
+	nonDigitNext := func(ps []*T) bool {
+		return len(ps) > 1 && ps[1].IsConst() && ps[1].Str != "" && (ps[1].Str[0] < '0' || ps[1].Str[0] > '9')
+	}
+	for len(a) > 0 {
+		if len(b) == 0 {
+			return nil, false
+		}
+		x, y := a[0], b[0]
+		switch {
+		case x == y:
+			a, b = a[1:], b[1:]
+		case x.IsConst() && y.IsConst():
+			n := min(len(x.Str), len(y.Str))
+			if x.Str[:n] != y.Str[:n] {
+				return tFalse, true
+			}
+			a, b = a[1:], b[1:]
+			if len(x.Str) > n {
+				a = append([]*T{StrConst(x.Str[n:])}, a...)
+			}
+			if len(y.Str) > n {
+				b = append([]*T{StrConst(y.Str[n:])}, b...)
+			}
+		case x.Op == "uf" && x.Name == "dec" && y.Op == "uf" && y.Name == "dec" && nonDigitNext(a) && nonDigitNext(b):
+			cond = And(cond, Eq(x.Args[0], y.Args[0]))
+			a, b = a[1:], b[1:]
+		default:
+			return nil, false
+		}
+	}
+	return cond, true
 }
 func StrSuffixOf(suf, s *T) *T {
 	if s.IsConst() && suf.IsConst() {
@@ -743,6 +843,23 @@ func StrSubstr(s, off, n *T) *T {
 		o, l := int(off.Int.Int64()), int(n.Int.Int64())
 		if o >= 0 && l >= 0 && o+l <= len(s.Args[0].Str) {
 			return StrConst(s.Args[0].Str[o : o+l])
+		}
+	}
+	// s[off:] where off is, up to a constant that falls inside a constant piece, the length of the first k pieces
+	if s.Op == "str.++" && !off.IsConst() {
+		if d, ok := linDiff(IntAdd(off, n), StrLen(s)); ok && d == 0 {
+			for k := 0; k < len(s.Args); k++ {
+				c, ok := linDiff(off, StrLen(Concat(s.Args[:k]...)))
+				if !ok || c < 0 {
+					continue
+				}
+				if c == 0 {
+					return Concat(s.Args[k:]...)
+				}
+				if p := s.Args[k]; p.IsConst() && int(c) <= len(p.Str) {
+					return Concat(append([]*T{StrConst(p.Str[c:])}, s.Args[k+1:]...)...)
+				}
+			}
 		}
 	}
 	// substr of a concatenation whose pieces all have known lengths, at constant positions: slice the pieces
